@@ -166,7 +166,7 @@ def gen_doc(rng, feat=None):
             p = rng.choice(list(NSURI))
             e.nsdecl.append((p, NSURI[p] if rng.random() < 0.8 else 'urn:other'))
         if f['ns'] and rng.random() < 0.12:
-            e.nsdecl.append((None, rng.choice(['urn:d', 'urn:p'])))
+            e.nsdecl.append((None, rng.choice(['urn:d', 'urn:p', '', ''])))
         n = 0 if d <= 1 else rng.choice([0, 1, 2, 2, 3, 4])
         for _ in range(n):
             if budget[0] > 0 and d > 1 and rng.random() < 0.6:
@@ -183,6 +183,17 @@ def gen_doc(rng, feat=None):
         root.children.append(El(rng.choice(NAMES), [('x', '1')], [], [El(rng.choice(NAMES), [], [], [('text', '5')]), ('text', 'z')]))
     if f.get('dflt'):
         root.nsdecl = [(q, u) for q, u in root.nsdecl if q is not None] + [(None, 'urn:d')]
+        # the default namespace is undeclared (xmlns="") and declared again further down: unprefixed element
+        # names below an undeclaration are in NO namespace (Namespaces in XML 6.2)
+        def walk(e, top):
+            for c in e.children:
+                if isinstance(c, El):
+                    if not any(q is None for q, _ in c.nsdecl):
+                        r = rng.random()
+                        if r < 0.3: c.nsdecl.append((None, ''))
+                        elif r < 0.4: c.nsdecl.append((None, 'urn:d'))
+                    walk(c, False)
+        walk(root, True)
     if f['ns']:
         for p, u in NSURI.items():          # every prefix used is declared at the root
             if not any(q == p for q, _ in root.nsdecl):
@@ -292,6 +303,7 @@ class Gen:
     def __init__(self, rng, weights=None):
         self.rng = rng
         self.w = {'ns_axis': 0.04, 'unsupported': 0.0, 'prefix': 0.12, 'substring': 0.0}
+        self.prefixes = ['p', 'q']
         if weights:
             self.w.update(weights)
 
@@ -307,7 +319,7 @@ class Gen:
         if r < 0.45:
             n = self.rng.choice(NAMES)
             if self.rng.random() < self.w['prefix']:
-                n = self.rng.choice(['p', 'q']) + ':' + n
+                n = self.rng.choice(self.prefixes) + ':' + n
             return n
         if r < 0.65: return '*'
         if r < 0.78: return 'node()'
@@ -315,7 +327,7 @@ class Gen:
         if r < 0.92: return 'comment()'
         if r < 0.96: return 'processing-instruction()'
         if r < 0.98: return "processing-instruction('pa')" if self.w['unsupported'] >= 0 else 'node()'
-        return 'p:*' if self.rng.random() < 0.5 else 'node()'
+        return (self.rng.choice(self.prefixes) + ':*') if self.rng.random() < 0.5 else 'node()'
 
     def step(self, d):
         r = self.rng.random()
@@ -388,7 +400,11 @@ class Gen:
 
     def number(self, d):
         r = self.rng.random()
-        if d <= 0 or r < 0.25: return ('num', self.rng.choice(['0', '1', '2', '3', '10', '2.5', '.5', '1.', '100']))
+        if d <= 0 or r < 0.25:
+            if self.rng.random() < 0.2:       # boundary values of the rounding functions and of double arithmetic
+                return ('num', self.rng.choice(['0.49999999999999994', '4503599627370497', '4503599627370496.5', '9007199254740993', '0.2', '0.5', '1.5',
+                                                '0.1', '0.30000000000000004', '123456789012345678901234567890', '0.000000000000000000001']))
+            return ('num', self.rng.choice(['0', '1', '2', '3', '10', '2.5', '.5', '1.', '100']))
         if r < 0.35: return ('call', 'position', [])
         if r < 0.42: return ('call', 'last', [])
         if r < 0.55: return ('call', 'count', [self.nodeset(d - 1)])
@@ -668,15 +684,22 @@ def generated_cases(seed, n, tier, weights=None, nexpr=(1, 3)):
     docs = []
     for k in range(n):
         if not docs or rng.random() < 0.35:
-            docs.append(gen_doc(rng))
+            # one document in eight has a default namespace that is undeclared and re-declared below the root
+            docs.append(gen_doc(rng, {'ns': True, 'dflt': True}) if rng.random() < 0.125 else gen_doc(rng))
         d = rng.choice(docs[-4:])
+        dflt = bool(d['feat'].get('dflt'))
+        # ... and is queried with a prefix bound to that namespace name (and unprefixed names = no namespace)
+        g.prefixes = ['p', 'q', 'd', 'd'] if dflt else ['p', 'q']
+        old = g.w['prefix']
+        if dflt: g.w['prefix'] = 0.45
         ex = []
         for _ in range(rng.randint(*nexpr)):
             t = rng.random()
             depth = rng.choice([1, 2, 2, 3, 3, 4])
             ex.append(g.nodeset(depth) if t < 0.55 else g.boolean(depth) if t < 0.7 else g.number(depth) if t < 0.85 else g.string(depth))
+        g.w['prefix'] = old
         out.append({'doc': d, 'exprs': ex, 'merged': rng.random() < 0.7,
-                    'binds': [('p', 'urn:p'), ('q', 'urn:q')] + ([(None, 'urn:d')] if rng.random() < 0.03 else [])})
+                    'binds': [('p', 'urn:p'), ('q', 'urn:q')] + ([('d', 'urn:d')] if dflt else []) + ([(None, 'urn:d')] if rng.random() < 0.03 else [])})
     return out
 
 def concrete(item):
